@@ -316,4 +316,19 @@ def radTime (fl : Rat → Rat) (T : Rat) (days seconds : Int) : Rat :=
   let dd := fl (fl (days : Rat) + fl (fl (seconds : Rat) / 86400))
   fl (fl (dd / T) * 86400)
 
+/-! ## orbital phase in double arithmetic
+
+`SolarRadiation.time_to_orbital_time` executed operation by operation on doubles (eager execution;
+under `jit` XLA may contract `x - q * p` into one fused operation, which removes the inner rounding):
+`orbital_time = ref + rate * time` (two roundings), `q = orbital_time // (2π)` is the *exact* floor of
+the quotient of the two doubles (`jnp.floor_divide` derives it from the exact `fmod`), then
+`orbital_time - q * (2π)` (two roundings). -/
+
+/-- `x - x // p * p` on doubles: exact floor, rounded product, rounded difference -/
+def reduceFl (fl : Rat → Rat) (p x : Rat) : Rat := fl (x - fl (((x / p).floor : Rat) * p))
+
+/-- `SolarRadiation.time_to_orbital_time` for one of the two phases, on doubles -/
+def timeToOrbitalFl (fl : Rat → Rat) (twoPi ref rate t : Rat) : Rat :=
+  reduceFl fl twoPi (fl (ref + fl (rate * t)))
+
 end Dino.Units
